@@ -90,6 +90,36 @@ def cmp_value(got, ref, tol, what, stats):
         raise Violation('%s: zeroth coefficient at %s is %r, NumPy gives %r (rel. err %.2e > %g)' % (what, bad, got[bad].item(), ref[bad].item(), e, tol))
 
 
+ULPS = 4
+
+
+def cmp_ulp(got, ref, what, stats):
+    """element-wise RELATIVE comparison: every element within ULPS units in the last place of the NumPy value, zeros exactly
+    zero.  Used for tiny base points, where an error that is invisible relative to max(1, |ref|) changes every digit."""
+    got = np.asarray(got)
+    ref = np.asarray(ref)
+    if got.shape != ref.shape:
+        raise Violation('%s: zeroth coefficient has shape %s, NumPy result %s' % (what, got.shape, ref.shape))
+    if not finite(ref):
+        raise Inconclusive('non-finite reference')
+    if got.size == 0:
+        return
+    if np.array_equal(got, ref):
+        stats.event('value:bitwise-equal')
+        return
+    if not finite(got):
+        raise Violation('%s: non-finite zeroth coefficient %r, NumPy gives %r' % (what, got.ravel()[:4], ref.ravel()[:4]))
+    err = np.abs(got - ref)
+    allowed = ULPS * np.spacing(np.abs(ref).astype(float))
+    allowed = np.where(ref == 0, 0.0, allowed)
+    stats.event('value:within-ulps')
+    if np.any(err > allowed):
+        bad = tuple(int(i) for i in np.argwhere(err > allowed)[0])
+        rel = float(err[bad] / abs(ref[bad])) if ref[bad] != 0 else float('inf')
+        raise Violation('%s: zeroth coefficient at %s is %r, NumPy gives %r (relative error %.2e, more than %d ulp)'
+                        % (what, bad, got[bad].item(), ref[bad].item(), rel, ULPS))
+
+
 def cmp_meta(y, ref, what):
     """shape, ndim, size, len of a UTPM result against the NumPy result"""
     ref = np.asarray(ref)
@@ -170,7 +200,10 @@ def check_reg(case, outs, objs, P, stats, what):
                 cmp_meta(y, r, w)
             if k in op.skip_outs:
                 continue
-            cmp_value(y.data[0, p], r, tol, '%s direction %d' % (w, p), stats)
+            if case.get('dmode') == 'tiny':
+                cmp_ulp(y.data[0, p], r, '%s direction %d' % (w, p), stats)
+            else:
+                cmp_value(y.data[0, p], r, tol, '%s direction %d' % (w, p), stats)
 
 
 def prop_reg(case, stats):
@@ -207,6 +240,13 @@ def cls_reg(case):
             c.append('layout=' + a['lay'])
     if 'sub' in case:
         c.append('sub=' + case['sub'])
+    if case.get('dmode') == 'tiny':
+        c.append('base-point:tiny-magnitude')
+        x0 = case['args'][0]['v'][0]
+        if np.any(x0 == 0):
+            c.append('base-point:exact-zero')
+        if np.any(np.abs(x0[x0 != 0]) < 1e-16):
+            c.append('base-point:below-1e-16')
     if 'mkind' in case:
         c.append('matrix=' + case['mkind'])
     if 'ranks' in case:
